@@ -6,9 +6,8 @@ import Spec.Gen
 
 * `repr_*`: the four identifier assignments of `script.py.mako` denote the requested values,
   for ALL strings (corollaries of `Py.repr_roundtrip`).
-* `incremental_*`: `view (addRevision (load h) r)` versus `view (load (h ++ [r]))`.
-  The full statement is FALSE on the unchanged code (F5: `branch_labels`); counterexample and
-  partial theorem below.
+* `incremental`: `view (addRevision (load h) r) = view (load (h ++ [r]))`, branch labels included
+  (full strength since the fix of F5 in `RevisionMap.add_revision`).
 * `message_*`: the docstring.  FALSE for arbitrary messages (F12); counterexample and partial.
 * `filename_*`: the generated file name is one the loader accepts.
 -/
@@ -91,12 +90,24 @@ def acceptedB (m : LMap) (r : Rev) : Bool :=
 
 def Accepted (m : LMap) (r : Rev) : Prop := acceptedB m r = true
 
-/-- FULL STATEMENT (false on the unchanged code, see `incremental_counterexample`) -/
-def incremental_statement : Prop :=
-  ∀ (h : Hist) (r : Rev) (m : LMap), load h = .ok m → Accepted m r →
-    ∃ m' mf, addRevision m r = .ok m' ∧ load (h ++ [r]) = .ok mf ∧ view m' = view mf
+/-- **C17.incremental: the in-memory map after `add_revision` IS the reloaded map** - the full
+    view, branch labels included (true since the fix of F5 in `add_revision`).
+    For EVERY history `h` that loads and every revision `r` accepted by `generate_revision`
+    (new id, dependencies that resolve in the map; nothing is assumed about heads/splice, labels
+    or the shape of the graph) such that the extended history loads: `add_revision` succeeds and
+    `view (addRevision (load h) r) = view (load (h ++ [r]))` - ids in map order, down revisions,
+    resolved and normalised dependencies, branch labels per revision, children (`nextrev`,
+    `_all_nextrev`), branch-label keys, heads, real heads, bases, real bases. -/
+theorem incremental (h : Hist) (r : Rev) (m mf : LMap) (hl : load h = .ok m)
+    (hf : load (h ++ [r]) = .ok mf) (ha : Accepted m r) :
+    ∃ m', addRevision m r = .ok m' ∧ view m' = view mf := by
+  unfold Accepted acceptedB at ha
+  simp only [Bool.and_eq_true, Bool.not_eq_true', List.all_eq_true] at ha
+  obtain ⟨⟨⟨⟨⟨hid, _⟩, _⟩, hdeps⟩, _⟩, _⟩ := ha
+  obtain ⟨h1, h2⟩ := Lemmas.Gen.incremental_view h r m mf hl hf hid hdeps
+  exact ⟨_, h1, h2⟩
 
-/-- decidable form, for concrete witnesses -/
+/-- decidable form, for concrete histories -/
 def incrementalOkB (h : Hist) (r : Rev) : Bool :=
   match load h with
   | .error _ => true
@@ -106,75 +117,20 @@ def incrementalOkB (h : Hist) (r : Rev) : Bool :=
      | .ok a, .ok b => decide (view a = view b)
      | _, _ => false)
 
-theorem incrementalOkB_of_statement (hs : incremental_statement) (h : Hist) (r : Rev) : incrementalOkB h r = true := by
-  unfold incrementalOkB
-  cases hl : load h with
-  | error e => rfl
-  | ok m =>
-    by_cases ha : acceptedB m r = true
-    · obtain ⟨m', mf, h1, h2, h3⟩ := hs h r m hl ha
-      simp [ha, h1, h2, h3]
-    · simp [ha]
-
-/-- F5 witness: `a` carries the label `L`; `d` is generated on top of `a` -/
+/-- the former F5 witness (`a` carries the label `L`; `d` is generated on top of `a`): with the
+    label recomputation in `add_revision` the two views agree, labels included -/
 def f5History : Hist := [{ id := "a", down := [], deps := [], labels := ["L"] }]
 def f5Revision : Rev := { id := "d", down := ["a"], deps := [], labels := [] }
-
-/-- **F5**: the in-memory map after `add_revision` is NOT the reloaded one (`d` lacks the label `L`) -/
-theorem incremental_counterexample : ¬ incremental_statement := by
-  intro hs
-  have h := incrementalOkB_of_statement hs f5History f5Revision
-  revert h
-  decide +kernel
-
-/-- the witness is an accepted request, and everything except the label sets agrees on it -/
+example : incrementalOkB f5History f5Revision = true := by decide +kernel
 example : (match load f5History with | .ok m => acceptedB m f5Revision | _ => false) = true := by decide +kernel
-example : (match (load f5History).bind (fun m => addRevision m f5Revision), load (f5History ++ [f5Revision]) with
-    | .ok a, .ok b => decide ((view a).noLabels = (view b).noLabels) | _, _ => false) = true := by decide +kernel
 
-/-- **Incremental map = reloaded map, except for the `branch_labels` sets** (partial: F5).
-    For EVERY history `h` that loads, every revision `r` accepted by `generate_revision` (new id,
-    dependencies that resolve in the map; nothing is assumed about heads/splice, labels or the
-    shape of the graph) such that the extended history loads: `add_revision` succeeds and the
-    views of the two maps - ids in map order, down revisions, resolved and normalised
-    dependencies, children (`nextrev`, `_all_nextrev`), branch-label keys, heads, real heads,
-    bases, real bases - coincide; only the per-revision `branch_labels` sets are left out. -/
-theorem incremental_partial (h : Hist) (r : Rev) (m mf : LMap) (hl : load h = .ok m)
-    (hf : load (h ++ [r]) = .ok mf) (ha : Accepted m r) :
-    ∃ m', addRevision m r = .ok m' ∧ (view m').noLabels = (view mf).noLabels := by
-  unfold Accepted acceptedB at ha
-  simp only [Bool.and_eq_true, Bool.not_eq_true', List.all_eq_true] at ha
-  obtain ⟨⟨⟨⟨⟨hid, _⟩, _⟩, hdeps⟩, _⟩, _⟩ := ha
-  obtain ⟨h1, h2⟩ := Lemmas.Gen.incremental_noLabels h r m mf hl hf hid hdeps
-  exact ⟨_, h1, h2⟩
-
-/-- **Histories without branch labels: the incremental map IS the reloaded map** (full view,
-    labels included) - the other way of stating what F5 leaves intact. -/
-theorem incremental_partial_unlabelled (h : Hist) (r : Rev) (m mf : LMap) (hl : load h = .ok m)
-    (hf : load (h ++ [r]) = .ok mf) (ha : Accepted m r) (hn : ∀ x ∈ h, x.labels = []) (hr : r.labels = []) :
-    ∃ m', addRevision m r = .ok m' ∧ view m' = view mf := by
-  unfold Accepted acceptedB at ha
-  simp only [Bool.and_eq_true, Bool.not_eq_true', List.all_eq_true] at ha
-  obtain ⟨⟨⟨⟨⟨hid, _⟩, _⟩, hdeps⟩, _⟩, _⟩ := ha
-  obtain ⟨h1, h2⟩ := Lemmas.Gen.incremental_noLabels h r m mf hl hf hid hdeps
-  refine ⟨_, h1, ?_⟩
-  have hm := Lemmas.Gen.labels_nil_of_load h m hl hn
-  have hmf := Lemmas.Gen.labels_nil_of_load (h ++ [r]) mf hf (by
-    intro x hx
-    rcases List.mem_append.mp hx with hx | hx
-    · exact hn x hx
-    · simp at hx; subst hx; exact hr)
-  rw [← Lemmas.Gen.view_noLabels_self _ (Lemmas.Gen.addCore_labels_nil m r _ hm hr),
-      ← Lemmas.Gen.view_noLabels_self mf hmf]
-  exact h2
-
-/-- the hypotheses of `incremental_partial` are satisfiable (a merge of two heads with a dependency and a label) -/
+/-- the hypotheses of `incremental` are satisfiable (a labelled merge of two heads with a dependency) -/
 example :
     let h : Hist := [{ id := "a", down := [], deps := [], labels := ["L"] }, { id := "b", down := ["a"], deps := [], labels := [] },
                      { id := "c", down := ["a"], deps := [], labels := [] }, { id := "e", down := [], deps := [], labels := [] }]
     let r : Rev := { id := "d", down := ["b", "c"], deps := ["e"], labels := ["M"] }
     (match load h, load (h ++ [r]) with
-     | .ok m, .ok _ => acceptedB m r
+     | .ok m, .ok _ => acceptedB m r && incrementalOkB h r
      | _, _ => false) = true := by decide +kernel
 
 /-! ## the docstring -/
